@@ -27,7 +27,23 @@ class ValidateArray(Contract):
 @contract
 class ValidateScalar(Contract):
     name = V + 'validate_scalar'
-    trusted = 'assumed (A-TYPE)'
+    trusted = 'assumed (A-TYPE) for the type checks; the VALUE check (domain) is modelled exactly'
+
+    def raises(self, c, a):
+        """`domain` is a check on the value, not on the type: 'strictly-positive' raises ValueError for value <= 0,
+        'positive' for value < 0 (and the mirror images).  Callers must establish it (object invariants in their
+        set-ups) or declare the exception."""
+        from sedvc.values import Quantity
+        from sedvc.sym import Sc, compare
+        dom = a.get('domain')
+        if not isinstance(dom, str):
+            return {}
+        v = a.value
+        num = v.value if isinstance(v, Quantity) else v
+        op = {'positive': '<', 'strictly-positive': '<=', 'negative': '>', 'strictly-negative': '>='}.get(dom)
+        if op is None or not isinstance(num, (Sc, int, float)) or isinstance(num, bool):
+            return {}
+        return {'ValueError': compare(op, num, 0)}
 
     def result(self, c, a):
         return a.value
